@@ -63,12 +63,27 @@ def static_gas_ok(block):
                           "EXP") for op, _ in block)
 
 
+def text00(block):
+    """The `-bl` text of a block with every zero push written with two hex digits (PUSH1 0x00), as disassemblers
+    print it: the text parser keeps the operand spelling, so zero recognition sees "00" instead of "0"."""
+    return " ".join("PUSH1 0x00" if i == ("PUSH", 0) else B.tok_text(i) for i in block)
+
+
 def work_a(ctx, block):
     push0 = ctx.push0
     G = ctx.G
     out = {"viol": None, "emitted_zero_pushes": 0, "changed": False, "rows": 0}
+    route = "json"
+    if isinstance(block, tuple) and block and block[0] == "text00":
+        route, block = "text00", block[1]
     with repo.quiet():
-        ab = driver.build_one(block)
+        if route == "text00":
+            try:
+                ab = driver.parse_one(text00(block))
+            except ValueError:
+                return out
+        else:
+            ab = driver.build_one(block)
         in_items = ab.to_json()
         try:
             nb, _log, rows = G.optimize_asm_block_asm_format(ab, ctx.params)
@@ -82,6 +97,8 @@ def work_a(ctx, block):
         out_items = nb.to_json()
     out["changed"] = out_items != in_items
     names_in = [i["name"] for i in in_items]
+    if route == "text00":
+        names_in = [op for op, _ in block]  # what the input text says, not what the tool's reader made of it
     zero_spellings = set()
     for it in out_items:
         if it["name"] == "PUSH0":
@@ -134,7 +151,7 @@ def work_a(ctx, block):
                                        "independent": exp_gas, "solution": row["solution_found"]}
                         break
     if out["viol"]:
-        out["viol"].update({"block": B.to_text(block), "config": list(ctx.cfg),
+        out["viol"].update({"block": B.to_text(block), "config": list(ctx.cfg), "route": route,
                             "emitted": B.to_text(docs.block_of_items(out_items))})
     return out
 
@@ -254,10 +271,16 @@ def main(tier, seed, only=None):
                 v = value["viol"]
                 chk.violation("%s;push0=%s" % (v["clause"], "-push0" not in cfg), v)
             elif value["emitted_zero_pushes"] and tot["zero_out"] % 400 == 1:
-                chk.sample({"block": B.to_text(block), "config": list(cfg)})
+                chk.sample({"block": B.to_text(block[1] if block and block[0] == "text00" else block),
+                            "config": list(cfg)})
 
         cfgs = crit_cfgs()
         tasks = [(cfg, ch) for cfg in cfgs for ch in pool.chunks(fam, max(200, len(fam) // 8 + 1))]
+        # text route (-bl inputs) with the two-digit spelling of zero; only with PUSH0 disabled, where the property
+        # fixes the spelling and the price of every zero push whatever the input spelling was
+        zfam = [("text00", b) for b in fam if any(i == ("PUSH", 0) for i in b)]
+        tasks += [(cfg, ch) for cfg in cfgs if "-push0" in cfg for ch in pool.chunks(zfam, max(200, len(zfam) // 4 + 1))]
+        chk.cov["text_route_blocks"] = len(zfam)
         pool.run_tasks(tasks, work_a, setup=driver.setup_ctx, unit_timeout=30, on_result=on_a)
         chk.cov["zero_family_blocks"] = len(fam)
     if not only or only == "b":
@@ -307,7 +330,10 @@ def replay(path):
                        unit_timeout=120, on_result=on_r)
     else:
         from .c01 import parse_text
-        pool.run_tasks([(tuple(w["config"]), [parse_text(w["block"])])], work_a, setup=driver.setup_ctx,
+        blk = parse_text(w["block"])
+        if w.get("route") == "text00":
+            blk = ("text00", blk)
+        pool.run_tasks([(tuple(w["config"]), [blk])], work_a, setup=driver.setup_ctx,
                        unit_timeout=60, on_result=on_r)
     v = res.get("value")
     print("replay:", res.get("status"), str(v and v.get("viol"))[:300])
